@@ -7,6 +7,7 @@ from hypothesis import strategies as st
 from pbt import manifests as mf
 from pbt.props.c01 import diff
 from pbt.runner import must, check
+from pbt.poison import poison
 
 PROPERTY = "C03"
 LEVEL = "exploration"
@@ -45,6 +46,7 @@ def _roundtrip(kind, cls, attr, obj, model):
     check(text == canonical, "not-canonical-json", "dump is not sort_keys/indent=4 JSON of its own content")
     variants = len(model)
     arches = len(set(a for v in model.values() for a in v))
+    poison(obj), poison(again), poison(doc)
     return variants, arches
 
 
